@@ -139,6 +139,9 @@ func ScenarioClasses(v *Verdict, sc *Scenario) {
 	if hostile {
 		v.Class("hostile-labels")
 	}
+	if sc.Target.ConcreteErr {
+		v.Class("target-final-concrete-error-type")
+	}
 	v.Class(fmt.Sprintf("convs=%d", len(sc.Convs)))
 }
 
